@@ -204,6 +204,14 @@ impl Expr {
             Expr::Value(Value::Ident(ident)) if ident.is_const() => Some(ident.name()),
             Expr::Index { lhs_raw, .. } => lhs_raw.const_root(),
             Expr::DotLookup { lhs, .. } => lhs.const_root(),
+            // the unwrapped value of an optional constant is still the constant's value
+            Expr::UnaryUnwrap { value, .. } => value.const_root(),
+            Expr::NilEval { primary, fallback } => primary.const_root().or(match fallback {
+                Value::Ident(ident) if ident.is_const() => Some(ident.name()),
+                Value::MathExpr(expr) => expr.const_root(),
+                _ => None,
+            }),
+            Expr::Value(Value::MathExpr(expr)) => expr.const_root(),
             _ => None,
         }
     }
